@@ -53,6 +53,7 @@ type Audit struct {
 	Field      string
 	Props      []string
 	Trans      []Transition
+	Deltas     []int64 // counter fields: Add(d) with d listed is the only allowed write
 	InitStores []string
 	Line       int
 	File       string
@@ -585,6 +586,15 @@ func (p *Program) runAudits(prop string) (obls []*Obligation, errs []string) {
 						mk(fn, "atomic "+what+" "+op, k, fmt.Sprintf("%s(%s) on %s is allowed from every state by {%s}", op, cm.Args[1].Name(), what, a.transText()), ok && a.allowedConst(0, true, n))
 					default:
 						sites++
+						if op == "Add" && len(a.Deltas) > 0 {
+							d, ok := constInt(cm.Args[1])
+							good := false
+							for _, x := range a.Deltas {
+								good = good || (ok && x == d)
+							}
+							mk(fn, "atomic "+what+" Add", next(op), fmt.Sprintf("Add(%s) on the counter %s adds one of the listed constants %v", cm.Args[1].Name(), what, a.Deltas), good)
+							continue
+						}
 						mk(fn, "atomic "+what+" "+op, next(op), fmt.Sprintf("%s on %s is not a transition the audit can allow", op, what), false)
 					}
 				}
